@@ -515,6 +515,10 @@ func ConvertSliceValueType(destTyp reflect.Type, v reflect.Value) (reflect.Value
 
 func findField(name string, typ reflect.Type) (int, error) {
 	for i := 0; i < typ.NumField(); i++ {
+		if typ.Field(i).PkgPath != "" {
+			// an unexported field cannot be set: it is no counterpart of a wire field
+			continue
+		}
 		str := typ.Field(i).Name
 		if strings.Compare(str, name) == 0 {
 			return i, nil
